@@ -3,14 +3,19 @@ import EV.Model.HeaderCache
 import EV.Drv.Merkle
 
 /-! Driver for suite `headercache`:
-  NEW <efl> <depthHigher> <initLen> <hashes>   fresh state: visible hashes, cache initialised to the
+  NEW <eflh> <depthHigher> <initLen> <hashes>  fresh state: visible hashes, cache initialised to the
                                                first initLen of them with the given depth_higher;
-                                               e,f,l ∈ {0,1} = Cfg.extFix, Cfg.retry, Cfg.lowerFirst
-  ST <cp> <height> | PF <i> | DL <i> | BB <n> | BE | AP <hashes>     the events of EV.HeaderCache
+                                               e,f,l,h ∈ {0,1} = Cfg.extFix, Cfg.retry, Cfg.lowerFirst,
+                                               Cfg.hdrCheck (a missing flag is 1)
+  HD <height> <cp> | HS <start> <count> <cp> | PF <i> | DL <i> | BB <n> | BE | AP <hashes>
+                                               the events of EV.HeaderCache
+  ST <cp> <height>                             = HD <height> <cp>, PF i, DL i for the new request i
+                                               (`startAtomic`)
 Output after every line:
   `<cache length> <cache level> | <truncations> | <len src> <pending or -> | <req> ; <req> ; …`
-  req = `E|L|V <start>,<count>,<?|!|hashes>` (waiting in _extend_to | for the leaf hashes | in _level_for)
-      | `A <branch> <root>` | `X <error>` | `R`. -/
+  req = `H|E|L|V <start>,<count>,<?|!|hashes>` (waiting for the handler's header read | in _extend_to |
+        for the leaf hashes | in _level_for)
+      | `A <headers> <branch> <root>` | `P <headers>` | `X <error>` | `R`. -/
 open EV EV.Wire EV.Merkle EV.HeaderCache
 
 namespace Drv.HeaderCacheD
@@ -27,10 +32,12 @@ def showRd (a n : Nat) : Rd Node → String
 
 def showReq (c : Cache Node) (r : Req Node) : String :=
   match r.pc with
+  | .hdr rd => "H " ++ showRd r.first r.count rd
   | .ext _ _ start rd => "E " ++ showRd start (r.length - start) rd
   | .leaf rd => "L " ++ showRd (c.leafStart r.index) (min c.segLen (r.length - c.leafStart r.index)) rd
   | .lvl _ _ rd => "V " ++ showRd (c.leafStart r.length) (min c.segLen (r.length - c.leafStart r.length)) rd
-  | .done (.answer br root) => s!"A {showList (br.map showElt)} {root}"
+  | .done (.answer br root) => s!"A {showList r.hdrs} {showList (br.map showElt)} {root}"
+  | .done .plain => s!"P {showList r.hdrs}"
   | .done (.error .dbError) => "X DBError"
   | .done (.error (.py e)) => s!"X {showExc e}"
   | .done .refused => "R"
@@ -60,12 +67,23 @@ def stepLine (d : DSt) (line : String) : DSt × String :=
       let s : HeaderCache.St Node :=
         { src := src, ref := src, c := { length := n, level := lv, depthHigher := dh, initialized := true } }
       let cs := v.toList
-      ({ cfg := { extFix := flag cs 0, retry := flag cs 1, lowerFirst := flag cs 2 }, s := s }, showSt s)
+      ({ cfg := { extFix := flag cs 0, retry := flag cs 1, lowerFirst := flag cs 2, hdrCheck := flag cs 3 },
+         s := s }, showSt s)
     | _, _ => (d, "bad-op")
   | ["ST", cp, h] =>
     match cp.toNat?, h.toNat? with
-    | some cp, some h => ev d (.start cp h)
+    | some cp, some h =>
+      let s := run H d.cfg d.s (startAtomic h cp d.s.reqs.length)
+      ({ d with s := s }, showSt s)
     | _, _ => (d, "bad-op")
+  | ["HD", h, cp] =>
+    match h.toNat?, cp.toNat? with
+    | some h, some cp => ev d (.header h cp)
+    | _, _ => (d, "bad-op")
+  | ["HS", a, n, cp] =>
+    match a.toNat?, n.toNat?, cp.toNat? with
+    | some a, some n, some cp => ev d (.headers a n cp)
+    | _, _, _ => (d, "bad-op")
   | ["PF", i] =>
     match i.toNat? with
     | some i => ev d (.perform i)
